@@ -180,6 +180,27 @@ M("sysgro-minus-one-special-case-lost", ["C12"], "gaddlemaps/components/_system.
   "                info = next(islice_extended(self._molecules_ordered_all_gen(),\n                                            index, index+1))\n                _, start, len_mol = info")
 M("grofile-seek-forgets-counter", ["C12"], "gaddlemaps/parsers/__init__.py",
   "        self._current_atom = index\n        if index > self.natoms:", "        if index > self.natoms:")
+# ---- copies / views --------------------------------------------------------------------------
+M("residue-atoms-not-copied", ["C18"], "gaddlemaps/components/_residue.py",
+  "        return [atom.copy() for atom in self._atoms_gro]", "        return list(self._atoms_gro)")
+M("molecule-init-keeps-residues", ["C18"], "gaddlemaps/components/_components.py",
+  "            self._residues.append(res.copy())", "            self._residues.append(res)")
+M("atomgro-copy-shares-velocity-array", ["C18"], "gaddlemaps/components/_residue.py",
+  "        if self.velocity is not None:\n            input_list += list(self.velocity)\n        return AtomGro(input_list)  # type: ignore",
+  "        new = AtomGro(input_list)  # type: ignore\n        new.velocity = self.velocity\n        return new")
+M("molecule-rotate-per-residue", ["C18"], "gaddlemaps/components/_components.py",
+  "    @property\n    def molecule_top(self) -> MoleculeTop:",
+  "    def rotate(self, rotation_matrix):\n        for res in self._residues:\n            res.rotate(rotation_matrix)\n\n    @property\n    def molecule_top(self) -> MoleculeTop:")
+M("molecule-moveto-first-residue-centre", ["C18"], "gaddlemaps/components/_components.py",
+  "    @property\n    def molecule_top(self) -> MoleculeTop:",
+  "    def move_to(self, new_position):\n        self.move(new_position - self._residues[0].geometric_center)\n\n    @property\n    def molecule_top(self) -> MoleculeTop:")
+M("deep-copy-shares-topology", ["C18"], "gaddlemaps/components/_components.py",
+  "        return Molecule(self._molecule_top.copy(), new_residues)", "        return Molecule(self._molecule_top, new_residues)")
+M("getitem-returns-atom-copy", ["C18"], "gaddlemaps/components/_components.py",
+  "        return Atom(self._molecule_top[index], self._residues[residue_index][atom_index])",
+  "        return Atom(self._molecule_top[index], self._residues[residue_index][atom_index].copy())")
+M("rotate-uses-matrix-not-transpose-centre-shift", ["C18"], "gaddlemaps/components/_residue.py",
+  "        new_pos = np.dot(atoms_pos, np.transpose(rotation_matrix)) + com", "        new_pos = np.dot(atoms_pos + com, np.transpose(rotation_matrix))")
 # ---- pbc --------------------------------------------------------------------------
 M("pbc-floor-instead-of-round", ["C19"], "gaddlemaps/components/_residue.py",
   "            vect -= np.round(vect)", "            vect -= np.floor(vect)")
